@@ -333,6 +333,51 @@ func runC29(c *Ctx) {
 		}
 		c.Check(len(atDst) == 1 && len(notDst) == 1, rule, v.Name()+":recorded-or-enqueued", v.Fn.Pos(),
 			fmt.Sprintf("%d site(s) recording a solution at the destination, %d site(s) enqueueing otherwise", len(atDst), len(notDst)))
+		// what is returned is the slice of recorded solutions itself (sorted in place):
+		// nothing is removed from it afterwards
+		okRet, nRet := true, 0
+		var walk func(x ssa.Value, seen map[ssa.Value]bool) bool
+		walk = func(x ssa.Value, seen map[ssa.Value]bool) bool {
+			if seen[x] {
+				return true
+			}
+			seen[x] = true
+			switch y := x.(type) {
+			case *ssa.Const:
+				return y.IsNil()
+			case *ssa.Phi:
+				for _, e := range y.Edges {
+					if !walk(e, seen) {
+						return false
+					}
+				}
+				return true
+			case *ssa.Call:
+				if calleeName(y.Common()) != "builtin:append" {
+					return false
+				}
+				for _, in := range atDst {
+					if in == ssa.Instruction(y) {
+						return walk(y.Common().Args[0], seen)
+					}
+				}
+				return false
+			}
+			return false
+		}
+		for _, b := range v.Fn.Blocks {
+			if r, ok := b.Instrs[len(b.Instrs)-1].(*ssa.Return); ok {
+				nRet++
+				okRet = okRet && walk(r.Results[0], map[ssa.Value]bool{})
+			}
+		}
+		c.Check(okRet && nRet >= 1, rule, v.Name()+":returns-all-recorded", v.Fn.Pos(),
+			"returns the slice of recorded solutions itself; no filtering, compaction or truncation after the search")
+		for _, ci := range v.Calls("slices.*") {
+			name := calleeName(ci.In.Common())
+			c.Check(strings.HasPrefix(name, "slices.SortFunc") || strings.HasPrefix(name, "slices.SortStableFunc"), rule,
+				v.Name()+":only-sorting:"+name, ci.In.(ssa.Instruction).Pos(), "the only slice operation after the search is sorting")
+		}
 	}
 	// S5
 	if v := c.View(pk + "Combine"); v != nil {
